@@ -248,6 +248,10 @@ class Ops:
                     self.ctx.require_eq_len(x.m, m, 'matrix cols')
             return Mat(n, m, lambda i, j: f(at(a, i, j), at(b, i, j)))
         if isinstance(a, Vec) and isinstance(b, Vec):
+            if isinstance(b.n, int) and b.n == 1 and not (isinstance(a.n, int) and a.n == 1):
+                return Vec(a.n, lambda i: f(a.at(i), b.at(0)))       # numpy broadcasting of a one-element array
+            if isinstance(a.n, int) and a.n == 1 and not (isinstance(b.n, int) and b.n == 1):
+                return Vec(b.n, lambda i: f(a.at(0), b.at(i)))
             n = self.ctx.common_len(a.n, b.n)
             return Vec(n, lambda i: f(a.at(i), b.at(i)))
         if isinstance(a, Vec):
